@@ -540,4 +540,374 @@ Proof.
     destruct (N.eq_dec r 0) as [->|Hne]; [left; reflexivity|right]. apply q_op_mono; lia.
 Qed.
 
+(* ---- structure of a bucket *)
+
+Lemma q_c_le_m b : c b <= m. Proof. apply c_le_m. Qed.
+Lemma q_c_lt i b : i < c b -> V i / 2 ^ w <= b. Proof. apply (c_lt w Vs Hw Hsorted). Qed.
+Lemma q_c_ge i b : c b <= i -> i < m -> b < V i / 2 ^ w. Proof. apply (c_ge w Vs Hw Hsorted). Qed.
+Lemma q_c_mono b b' : b <= b' -> c b <= c b'. Proof. apply (c_mono w Vs Hw Hsorted). Qed.
+
+Lemma q_cprev_le b : c_prev b <= c b.
+Proof. unfold c_prev. destruct (N.eqb_spec b 0); [lia|apply q_c_mono; lia]. Qed.
+Lemma q_cprev_lt i b : i < c_prev b -> V i / 2 ^ w < b.
+Proof. unfold c_prev. destruct (N.eqb_spec b 0); [lia|]. intros Hi. pose proof (q_c_lt i (b - 1) Hi). lia. Qed.
+Lemma q_cprev_ge i b : c_prev b <= i -> i < m -> b <= V i / 2 ^ w.
+Proof. unfold c_prev. destruct (N.eqb_spec b 0) as [E|E]; [intros; subst b; apply N.le_0_l|]. intros Hi Him. pose proof (q_c_ge i (b - 1) Hi Him). lia. Qed.
+
+Lemma q_bucket_hi b j : c_prev b <= j -> j < c b -> V j / 2 ^ w = b.
+Proof.
+  intros Hlo Hhi. pose proof (q_c_le_m b). pose proof (q_c_lt j b Hhi). pose proof (q_cprev_ge j b Hlo ltac:(lia)). lia.
+Qed.
+Lemma q_bucket_op b j : c_prev b <= j -> j < c b -> op j = b + j.
+Proof. intros Hlo Hhi. unfold one_pos. rewrite (q_bucket_hi b j Hlo Hhi). reflexivity. Qed.
+
+(* the bit that follows the values of bucket b *)
+Lemma q_zero b : b < nb -> bv_get hb (b + c b) = Ok false.
+Proof. intros Hb. apply q_get. apply (H_zero n w Vs H Hw Hsorted HH b Hb). Qed.
+(* the bit before the values of bucket b, when b has predecessors *)
+Lemma q_zero_prev b : b < nb -> 1 <= c_prev b -> bv_get hb (b + (c_prev b - 1)) = Ok false.
+Proof.
+  intros Hb Hc. unfold c_prev in *. destruct (N.eqb_spec b 0) as [|Hb0]; [lia|].
+  replace (b + (c (b - 1) - 1)) with (b - 1 + c (b - 1)) by lia. apply q_zero. lia.
+Qed.
+
+(* the rank of x lies inside (or at the end of) the bucket of x *)
+Lemma q_rank_in_bucket x : x / 2 ^ w < nb ->
+  c_prev (x / 2 ^ w) <= vs_rank Vs x /\ vs_rank Vs x <= c (x / 2 ^ w).
+Proof.
+  intros Hb. set (b := x / 2 ^ w) in *. pose proof q_P_pos as HP. pose proof (q_c_le_m b) as Hcm.
+  pose proof (vs_rank_le_len Vs x) as Hrm. split.
+  - destruct (N.le_gt_cases (c_prev b) (vs_rank Vs x)) as [|Hlt]; [assumption|exfalso].
+    pose proof (q_cprev_le b).
+    pose proof (vs_rank_ge Vs x (vs_rank Vs x) Hsorted ltac:(lia) ltac:(lia)) as Hge.
+    pose proof (q_cprev_lt _ b Hlt) as Hhi.
+    apply div_lt_iff in Hhi; [|exact HP]. pose proof (div_mod_eq x (2 ^ w) HP). fold b in H0. nia.
+  - destruct (N.le_gt_cases (vs_rank Vs x) (c b)) as [|Hlt]; [assumption|exfalso].
+    pose proof (vs_rank_lt Vs x (c b) Hsorted Hlt) as Hl.
+    pose proof (q_c_ge (c b) b ltac:(lia) ltac:(lia)) as Hhi.
+    assert (Hx : x < (b + 1) * 2 ^ w) by (apply div_le_iff; [exact HP|fold b; lia]).
+    assert (Hv : (b + 1) * 2 ^ w <= V (c b)).
+    { destruct (N.le_gt_cases ((b + 1) * 2 ^ w) (V (c b))) as [|Hc]; [assumption|].
+      apply div_le_iff in Hc; [lia|exact HP]. }
+    lia.
+Qed.
+
+(* ---- get *)
+
+Lemma q_get_step i j : i < n -> c_prev (i / 2 ^ w) <= j -> j <= vs_rank Vs i ->
+  get_step md sv (i mod 2 ^ w) (i / 2 ^ w + j, j) =
+  Ok (if j <? vs_rank Vs i then Continue (i / 2 ^ w + (j + 1), j + 1) else Done (vs_get Vs i)).
+Proof.
+  intros Hi Hlo Hhi. pose proof (q_hp_lt i Hi) as Hb. pose proof q_P_pos as HP.
+  destruct (q_rank_in_bucket i Hb) as [Hr1 Hr2]. set (b := i / 2 ^ w) in *. set (R := vs_rank Vs i) in *.
+  pose proof (q_c_le_m b) as Hcm. pose proof q_hb_len as [Hl Hl2].
+  unfold get_step. cbn [fst snd]. rewrite Hl. replace (b + j <? m + nb) with true by lia.
+  rewrite (vs_get_sorted Vs i Hsorted). fold R.
+  destruct (N.ltb_spec j R) as [HjR|HjR].
+  - (* a value of the bucket below i *)
+    rewrite <- (q_bucket_op b j) by lia. rewrite (q_one j) by lia. cbn [bind].
+    rewrite (q_low j) by lia. cbn [bind].
+    pose proof (vs_rank_lt Vs i j Hsorted HjR) as Hlt.
+    destruct (mod_cmp i (V j) (2 ^ w) HP) as [Hc _]; [rewrite (q_bucket_hi b j) by lia; reflexivity|].
+    rewrite Hc. replace (i <=? V j) with false by lia.
+    rewrite (q_bucket_op b j) by lia. rewrite uadd_ok by lia. cbn [bind]. rewrite uadd_ok by lia. cbn [bind].
+    do 3 f_equal. lia.
+  - assert (j = R) by lia. subst j.
+    destruct (N.ltb_spec R (c b)) as [HRc|HRc].
+    + (* the first value >= i is in the bucket *)
+      rewrite <- (q_bucket_op b R) by lia. rewrite (q_one R) by lia. cbn [bind].
+      rewrite (q_low R) by lia. cbn [bind].
+      pose proof (vs_rank_ge Vs i R Hsorted ltac:(lia) ltac:(lia)) as Hge.
+      destruct (mod_cmp i (V R) (2 ^ w) HP) as [Hc [_ He]]; [rewrite (q_bucket_hi b R) by lia; reflexivity|].
+      rewrite Hc. replace (i <=? V R) with true by lia. replace (R <? m) with true by lia.
+      do 2 f_equal. destruct (mod_cmp (V R) i (2 ^ w) HP) as [_ [_ He']]; [rewrite (q_bucket_hi b R) by lia; reflexivity|].
+      exact He'.
+    + (* the bucket is exhausted *)
+      replace R with (c b) by lia. rewrite (q_zero b Hb). cbn [bind].
+      destruct (N.ltb_spec (c b) m) as [Hcm'|Hcm']; [|reflexivity].
+      pose proof (q_c_ge (c b) b ltac:(lia) Hcm') as Hhi'.
+      do 2 f_equal. symmetry. apply N.eqb_neq. intros Heq. rewrite Heq in Hhi'. fold b in Hhi'. lia.
+Qed.
+
+Lemma q_get_ok i : i < n -> sv_get sp md sv i = Ok (vs_get Vs i).
+Proof.
+  intros Hi. pose proof (q_hp_lt i Hi) as Hb. destruct (q_rank_in_bucket i Hb) as [Hr1 Hr2].
+  unfold sv_get. rewrite q_split. cbn [bind]. rewrite (q_lower_bound _ Hb). cbn [bind].
+  set (b := i / 2 ^ w) in *.
+  destruct (run_loop_inv (get_step md sv (i mod 2 ^ w))
+              (fun s k => exists j, s = (b + j, j) /\ c_prev b <= j /\ j <= vs_rank Vs i /\ k = vs_rank Vs i - j)
+              (fun r => r = vs_get Vs i)) with (blocks := sv_fuel sv) (s := (b + c_prev b, c_prev b))
+              (k := vs_rank Vs i - c_prev b) as [r [Hr Hp]].
+  - intros s k [j [-> [Hlo [Hhi Hk]]]]. unfold b. rewrite (q_get_step i j Hi Hlo Hhi). fold b.
+    destruct (N.ltb_spec j (vs_rank Vs i)) as [Hlt|Hge].
+    + right. exists (b + (j + 1), j + 1), (vs_rank Vs i - (j + 1)). split; [reflexivity|]. split; [|lia].
+      exists (j + 1). split; [reflexivity|]. split; [lia|]. split; [lia|reflexivity].
+    + left. eexists. split; reflexivity.
+  - exists (c_prev b). split; [reflexivity|]. split; [lia|]. split; [exact Hr1|reflexivity].
+  - pose proof (vs_rank_le_len Vs i). pose proof q_fuel. lia.
+  - rewrite Hr, Hp. reflexivity.
+Qed.
+
+(* ---- rank *)
+
+Lemma q_rank_beyond x : n <= x -> vs_rank Vs x = m.
+Proof. intros Hx. apply vs_rank_all; [exact Hsorted|]. intros i Hi. pose proof (q_V_lt i Hi). lia. Qed.
+
+Lemma q_rank_step i j : i < n -> vs_rank Vs i <= j + 1 -> j < c (i / 2 ^ w) ->
+  rank_step md sv (i mod 2 ^ w) (i / 2 ^ w + j, j) =
+  Ok (if vs_rank Vs i <=? j then (if j =? 0 then Done 0 else Continue (i / 2 ^ w + (j - 1), j - 1))
+      else Done (vs_rank Vs i)).
+Proof.
+  intros Hi Hlo Hhi. pose proof (q_hp_lt i Hi) as Hb. pose proof q_P_pos as HP.
+  destruct (q_rank_in_bucket i Hb) as [Hr1 Hr2]. set (b := i / 2 ^ w) in *. set (R := vs_rank Vs i) in *.
+  pose proof (q_c_le_m b) as Hcm. pose proof q_hb_len as [Hl Hl2].
+  unfold rank_step. cbn [fst snd].
+  destruct (N.leb_spec R j) as [HRj|HRj].
+  - rewrite <- (q_bucket_op b j) by lia. rewrite (q_one j) by lia. cbn [bind].
+    rewrite (q_low j) by lia. cbn [bind].
+    pose proof (vs_rank_ge Vs i j Hsorted HRj ltac:(lia)) as Hge.
+    destruct (mod_cmp i (V j) (2 ^ w) HP) as [Hc _]; [rewrite (q_bucket_hi b j) by lia; reflexivity|].
+    rewrite Hc. replace (i <=? V j) with true by lia.
+    destruct (N.eqb_spec j 0) as [Hj0|Hj0]; [reflexivity|].
+    rewrite (q_bucket_op b j) by lia. rewrite usub_ok by lia. cbn [bind]. do 3 f_equal. lia.
+  - assert (Hj : j + 1 = R) by lia.
+    destruct (N.le_gt_cases (c_prev b) j) as [Hin|Hout].
+    + rewrite <- (q_bucket_op b j) by lia. rewrite (q_one j) by lia. cbn [bind].
+      rewrite (q_low j) by lia. cbn [bind].
+      pose proof (vs_rank_lt Vs i j Hsorted ltac:(lia)) as Hlt.
+      destruct (mod_cmp i (V j) (2 ^ w) HP) as [Hc _]; [rewrite (q_bucket_hi b j) by lia; reflexivity|].
+      rewrite Hc. replace (i <=? V j) with false by lia. rewrite uadd_ok by lia. cbn [bind]. rewrite Hj. reflexivity.
+    + replace j with (c_prev b - 1) by lia. rewrite (q_zero_prev b Hb) by lia. cbn [bind].
+      rewrite uadd_ok by lia. cbn [bind]. do 2 f_equal. lia.
+Qed.
+
+Lemma q_rank_ok i : sv_rank sp md sv i = Ok (vs_rank Vs i).
+Proof.
+  unfold sv_rank. rewrite Hlen, q_ones. destruct (N.leb_spec n i) as [Hi|Hi].
+  - rewrite (q_rank_beyond i Hi). reflexivity.
+  - pose proof (q_hp_lt i Hi) as Hb. destruct (q_rank_in_bucket i Hb) as [Hr1 Hr2].
+    rewrite q_split. cbn [bind]. rewrite (q_upper_bound _ Hb). cbn [bind snd fst].
+    set (b := i / 2 ^ w) in *. pose proof (q_c_le_m b) as Hcm.
+    destruct (N.eqb_spec (c b) 0) as [Hc0|Hc0]; [f_equal; lia|].
+    rewrite usub_ok by lia. cbn [bind]. replace (b + c b - 1) with (b + (c b - 1)) by lia.
+    destruct (run_loop_inv (rank_step md sv (i mod 2 ^ w))
+                (fun s k => exists j, s = (b + j, j) /\ vs_rank Vs i <= j + 1 /\ j < c b /\ k = j)
+                (fun r => r = vs_rank Vs i)) with (blocks := sv_fuel sv) (s := (b + (c b - 1), c b - 1))
+                (k := c b - 1) as [r [Hr Hp]].
+    + intros s k [j [-> [Hlo [Hhi Hk]]]]. unfold b. rewrite (q_rank_step i j Hi Hlo Hhi). fold b.
+      destruct (N.leb_spec (vs_rank Vs i) j) as [Hle|Hgt].
+      * destruct (N.eqb_spec j 0) as [Hj0|Hj0].
+        -- left. exists 0. split; [reflexivity|lia].
+        -- right. exists (b + (j - 1), j - 1), (j - 1). split; [reflexivity|]. split; [|lia].
+           exists (j - 1). split; [reflexivity|]. split; [lia|]. split; [lia|reflexivity].
+      * left. eexists. split; reflexivity.
+    + exists (c b - 1). split; [reflexivity|]. split; [lia|]. split; [lia|reflexivity].
+    + pose proof q_fuel. lia.
+    + rewrite Hr, Hp. reflexivity.
+Qed.
+
+Lemma q_rank_zero_ok i : sorted_lt Vs -> sv_rank_zero sp md sv i = Ok (i - vs_rank Vs i).
+Proof.
+  intros Hs. unfold sv_rank_zero. rewrite q_rank_ok. cbn [bind]. apply usub_ok. apply vs_rank_le_arg. exact Hs.
+Qed.
+
+(* ---- successor *)
+
+Lemma q_succ_step1 i j : i < n -> c_prev (i / 2 ^ w) <= j -> j <= vs_rank Vs i ->
+  succ_step1 md sv (i mod 2 ^ w) (i / 2 ^ w + j, j) =
+  Ok (if j <? vs_rank Vs i then Continue (i / 2 ^ w + (j + 1), j + 1)
+      else if j <? c (i / 2 ^ w) then Done (inl (i / 2 ^ w + j, j)) else Done (inr (i / 2 ^ w + j, j))).
+Proof.
+  intros Hi Hlo Hhi. pose proof (q_hp_lt i Hi) as Hb. pose proof q_P_pos as HP.
+  destruct (q_rank_in_bucket i Hb) as [Hr1 Hr2]. set (b := i / 2 ^ w) in *. set (R := vs_rank Vs i) in *.
+  pose proof (q_c_le_m b) as Hcm. pose proof q_hb_len as [Hl Hl2].
+  unfold succ_step1. cbn [fst snd]. rewrite Hl. replace (b + j <? m + nb) with true by lia.
+  destruct (N.ltb_spec j R) as [HjR|HjR].
+  - rewrite <- (q_bucket_op b j) by lia. rewrite (q_one j) by lia. cbn [bind].
+    rewrite (q_low j) by lia. cbn [bind].
+    pose proof (vs_rank_lt Vs i j Hsorted HjR) as Hlt.
+    destruct (mod_cmp i (V j) (2 ^ w) HP) as [Hc _]; [rewrite (q_bucket_hi b j) by lia; reflexivity|].
+    rewrite Hc. replace (i <=? V j) with false by lia.
+    rewrite (q_bucket_op b j) by lia. rewrite uadd_ok by lia. cbn [bind]. rewrite uadd_ok by lia. cbn [bind].
+    do 3 f_equal. lia.
+  - assert (j = R) by lia. subst j.
+    destruct (N.ltb_spec R (c b)) as [HRc|HRc].
+    + rewrite <- (q_bucket_op b R) by lia. rewrite (q_one R) by lia. cbn [bind].
+      rewrite (q_low R) by lia. cbn [bind].
+      pose proof (vs_rank_ge Vs i R Hsorted ltac:(lia) ltac:(lia)) as Hge.
+      destruct (mod_cmp i (V R) (2 ^ w) HP) as [Hc _]; [rewrite (q_bucket_hi b R) by lia; reflexivity|].
+      rewrite Hc. replace (i <=? V R) with true by lia. rewrite (q_bucket_op b R) by lia. reflexivity.
+    + replace R with (c b) by lia. rewrite (q_zero b Hb). reflexivity.
+Qed.
+
+Lemma q_succ_step2 j h : j <= m -> (j = 0 \/ op (j - 1) < h) -> (j < m -> h <= op j) -> h <= lenB H ->
+  succ_step2 md sv h =
+  Ok (if j <? m then (if h =? op j then Done (Some h) else Continue (h + 1))
+      else (if h =? lenB H then Done None else Continue (h + 1))).
+Proof.
+  intros Hj Hlo Hhi Hl. unfold succ_step2. pose proof q_hb_len as [Hbl Hbl2]. pose proof q_lenB as HlB.
+  rewrite Hbl, <- HlB.
+  destruct (N.ltb_spec j m) as [Hjm|Hjm].
+  - specialize (Hhi Hjm). pose proof (q_op_lt_len j Hjm). replace (h <? lenB H) with true by lia.
+    destruct (N.eqb_spec h (op j)) as [->|Hne].
+    + rewrite (q_one j Hjm). reflexivity.
+    + rewrite (q_gap j h) by (try assumption; lia). cbn [bind]. rewrite uadd_ok by lia. reflexivity.
+  - destruct (N.eqb_spec h (lenB H)) as [->|Hne].
+    + replace (lenB H <? lenB H) with false by lia. reflexivity.
+    + replace (h <? lenB H) with true by lia.
+      rewrite (q_gap j h) by (try assumption; lia). cbn [bind]. rewrite uadd_ok by lia. reflexivity.
+Qed.
+
+Lemma q_succ_loop2 j p : j <= m -> (j = 0 \/ op (j - 1) < p) -> (j < m -> p <= op j) -> p <= lenB H ->
+  run_loop (sv_fuel sv) (succ_step2 md sv) p = Ok (if j <? m then Some (op j) else None).
+Proof.
+  intros Hj Hlo Hhi Hl. set (target := if j <? m then op j else lenB H).
+  assert (Ht : p <= target /\ target <= lenB H).
+  { unfold target. destruct (N.ltb_spec j m) as [Hjm|Hjm]; [pose proof (q_op_lt_len j Hjm); specialize (Hhi Hjm); lia|lia]. }
+  destruct (run_loop_inv (succ_step2 md sv)
+              (fun h k => (j = 0 \/ op (j - 1) < h) /\ h <= target /\ k = target - h)
+              (fun r => r = if j <? m then Some (op j) else None)) with (blocks := sv_fuel sv) (s := p) (k := target - p) as [r [Hr Hp]].
+  - intros h k [Hlo' [Hhi' Hk]]. unfold target in Hhi', Hk.
+    rewrite (q_succ_step2 j h Hj Hlo') by (destruct (N.ltb_spec j m); lia).
+    destruct (N.ltb_spec j m) as [Hjm|Hjm].
+    + destruct (N.eqb_spec h (op j)) as [Heq|Hne].
+      * left. eexists. split; [reflexivity|]. rewrite Heq. reflexivity.
+      * right. exists (h + 1), (target - (h + 1)). split; [reflexivity|]. unfold target. replace (j <? m) with true by lia.
+        split; [|lia]. split; [destruct Hlo'; [left; assumption|right; lia]|split; [lia|reflexivity]].
+    + destruct (N.eqb_spec h (lenB H)) as [Heq|Hne].
+      * left. eexists. split; reflexivity.
+      * right. exists (h + 1), (target - (h + 1)). split; [reflexivity|]. unfold target. replace (j <? m) with false by lia.
+        split; [|lia]. split; [destruct Hlo'; [left; assumption|right; lia]|split; [lia|reflexivity]].
+  - split; [exact Hlo|split; [lia|reflexivity]].
+  - pose proof q_fuel. pose proof q_lenB. lia.
+  - rewrite Hr, Hp. reflexivity.
+Qed.
+
+Lemma q_successor_ok v : exists it, sv_successor sp md sv v = Ok it /\ it_repr it (vs_rank Vs v) m.
+Proof.
+  unfold sv_successor. rewrite Hlen. destruct (N.leb_spec n v) as [Hv|Hv].
+  - exists (it_empty sv). split; [reflexivity|]. rewrite (q_rank_beyond v Hv). apply q_it_empty.
+  - pose proof (q_hp_lt v Hv) as Hb. destruct (q_rank_in_bucket v Hb) as [Hr1 Hr2].
+    rewrite q_split. cbn [bind]. rewrite (q_lower_bound _ Hb). cbn [bind].
+    set (b := v / 2 ^ w) in *. set (R := vs_rank Vs v) in *. pose proof (q_c_le_m b) as Hcm.
+    destruct (run_loop_inv (succ_step1 md sv (v mod 2 ^ w))
+                (fun s k => exists j, s = (b + j, j) /\ c_prev b <= j /\ j <= R /\ k = R - j)
+                (fun r => r = if R <? c b then inl (b + R, R) else inr (b + R, R)))
+             with (blocks := sv_fuel sv) (s := (b + c_prev b, c_prev b)) (k := R - c_prev b) as [r [Hr Hp]].
+    + intros s k [j [-> [Hlo [Hhi Hk]]]]. unfold b. rewrite (q_succ_step1 v j Hv Hlo Hhi). fold b R.
+      destruct (N.ltb_spec j R) as [Hlt|Hge].
+      * right. exists (b + (j + 1), j + 1), (R - (j + 1)). split; [reflexivity|]. split; [|lia].
+        exists (j + 1). split; [reflexivity|]. split; [lia|]. split; [lia|reflexivity].
+      * left. assert (j = R) by lia. subst j. destruct (R <? c b); eexists; split; reflexivity.
+    + exists (c_prev b). split; [reflexivity|]. split; [lia|]. split; [exact Hr1|reflexivity].
+    + pose proof q_fuel. lia.
+    + rewrite Hr, Hp. cbn [bind]. destruct (N.ltb_spec R (c b)) as [HRc|HRc].
+      * eexists. split; [reflexivity|]. apply q_it_at; [lia|]. intros _.
+        rewrite <- (q_bucket_op b R) by lia. split; [|lia].
+        destruct (N.eq_dec R 0) as [->|Hne]; [left; reflexivity|right]. apply q_op_mono; lia.
+      * assert (HR : R = c b) by lia. cbn [fst snd].
+        destruct (H_zero_gap n w Vs H Hw Hsorted HH b Hb) as [Hg1 [Hg2 Hg3]].
+        rewrite (q_succ_loop2 R (b + R)) by (rewrite ?HR; try lia; try assumption; intros Hlt; specialize (Hg2 Hlt); lia).
+        cbn [bind]. destruct (N.ltb_spec R m) as [HRm|HRm].
+        -- eexists. split; [reflexivity|]. apply q_it_at; [lia|]. intros _. split; [|lia].
+           destruct (N.eq_dec R 0) as [->|Hne]; [left; reflexivity|right]. apply q_op_mono; lia.
+        -- exists (it_empty sv). split; [reflexivity|]. replace R with m by (pose proof (vs_rank_le_len Vs v); lia).
+           apply q_it_empty.
+Qed.
+
+(* ---- predecessor *)
+
+(* the number of values <= x lies inside (or at the end of) the bucket of x *)
+Lemma q_rank_succ_in_bucket x : x / 2 ^ w < nb ->
+  c_prev (x / 2 ^ w) <= vs_rank Vs (x + 1) /\ vs_rank Vs (x + 1) <= c (x / 2 ^ w).
+Proof.
+  intros Hb. set (b := x / 2 ^ w) in *. pose proof q_P_pos as HP. pose proof (q_c_le_m b) as Hcm.
+  pose proof (vs_rank_le_len Vs (x + 1)) as Hrm. pose proof (div_mod_eq x (2 ^ w) HP) as Hx. fold b in Hx.
+  pose proof (N.mod_lt x (2 ^ w) ltac:(lia)) as Hxm. split.
+  - destruct (N.le_gt_cases (c_prev b) (vs_rank Vs (x + 1))) as [|Hlt]; [assumption|exfalso].
+    pose proof (q_cprev_le b).
+    pose proof (vs_rank_ge Vs (x + 1) (vs_rank Vs (x + 1)) Hsorted ltac:(lia) ltac:(lia)) as Hge.
+    pose proof (q_cprev_lt _ b Hlt) as Hhi.
+    apply div_lt_iff in Hhi; [|exact HP]. nia.
+  - destruct (N.le_gt_cases (vs_rank Vs (x + 1)) (c b)) as [|Hlt]; [assumption|exfalso].
+    pose proof (vs_rank_lt Vs (x + 1) (c b) Hsorted Hlt) as Hl.
+    pose proof (q_c_ge (c b) b ltac:(lia) ltac:(lia)) as Hhi.
+    assert (Hv : (b + 1) * 2 ^ w <= V (c b)).
+    { destruct (N.le_gt_cases ((b + 1) * 2 ^ w) (V (c b))) as [|Hc]; [assumption|].
+      apply div_le_iff in Hc; [lia|exact HP]. }
+    nia.
+Qed.
+
+Lemma q_pred_step x j : x < n -> vs_rank Vs (x + 1) <= j + 1 -> j < c (x / 2 ^ w) ->
+  pred_step md sv (x mod 2 ^ w) (x / 2 ^ w + j, j) =
+  Ok (if vs_rank Vs (x + 1) <=? j then (if j =? 0 then Done None else Continue (x / 2 ^ w + (j - 1), j - 1))
+      else Done (Some (x / 2 ^ w + j, j))).
+Proof.
+  intros Hx Hlo Hhi. pose proof (q_hp_lt x Hx) as Hb. pose proof q_P_pos as HP.
+  destruct (q_rank_succ_in_bucket x Hb) as [Hr1 Hr2]. set (b := x / 2 ^ w) in *. set (R := vs_rank Vs (x + 1)) in *.
+  pose proof (q_c_le_m b) as Hcm. pose proof q_hb_len as [Hl Hl2].
+  unfold pred_step. cbn [fst snd].
+  destruct (N.leb_spec R j) as [HRj|HRj].
+  - rewrite <- (q_bucket_op b j) by lia. rewrite (q_one j) by lia. cbn [bind].
+    rewrite (q_low j) by lia. cbn [bind].
+    pose proof (vs_rank_ge Vs (x + 1) j Hsorted HRj ltac:(lia)) as Hge.
+    destruct (mod_cmp x (V j) (2 ^ w) HP) as [_ [Hc _]]; [rewrite (q_bucket_hi b j) by lia; reflexivity|].
+    rewrite Hc. replace (x <? V j) with true by lia.
+    destruct (N.eqb_spec j 0) as [Hj0|Hj0]; [reflexivity|].
+    rewrite (q_bucket_op b j) by lia. rewrite usub_ok by lia. cbn [bind]. do 3 f_equal. lia.
+  - assert (Hj : j + 1 = R) by lia.
+    destruct (N.le_gt_cases (c_prev b) j) as [Hin|Hout].
+    + rewrite <- (q_bucket_op b j) by lia. rewrite (q_one j) by lia. cbn [bind].
+      rewrite (q_low j) by lia. cbn [bind].
+      pose proof (vs_rank_lt Vs (x + 1) j Hsorted ltac:(lia)) as Hlt.
+      destruct (mod_cmp x (V j) (2 ^ w) HP) as [_ [Hc _]]; [rewrite (q_bucket_hi b j) by lia; reflexivity|].
+      rewrite Hc. replace (x <? V j) with false by lia. rewrite (q_bucket_op b j) by lia. reflexivity.
+    + replace j with (c_prev b - 1) by lia. rewrite (q_zero_prev b Hb) by lia. reflexivity.
+Qed.
+
+Definition pred_index (v : N) : N := let r := vs_rank Vs (v + 1) in if r =? 0 then m else r - 1.
+
+Lemma q_predecessor_ok v : exists it, sv_predecessor sp md sv v = Ok it /\ it_repr it (pred_index v) m.
+Proof.
+  unfold sv_predecessor, sv_is_empty, pred_index. rewrite Hlen. destruct (N.eqb_spec n 0) as [Hn0|Hn0].
+  - exists (it_empty sv). split; [reflexivity|].
+    assert (Hm0 : m = 0). { destruct (N.eq_dec m 0) as [|Hne]; [assumption|]. pose proof (q_V_lt 0 ltac:(lia)). lia. }
+    pose proof (vs_rank_le_len Vs (v + 1)). replace (vs_rank Vs (v + 1) =? 0) with true by lia. apply q_it_empty.
+  - set (x := N.min v (n - 1)).
+    assert (Hx : x < n) by (unfold x; lia).
+    assert (HRx : vs_rank Vs (v + 1) = vs_rank Vs (x + 1)).
+    { unfold x. destruct (N.le_gt_cases v (n - 1)) as [Hle|Hgt]; [replace (N.min v (n - 1)) with v by lia; reflexivity|].
+      replace (N.min v (n - 1)) with (n - 1) by lia. rewrite !q_rank_beyond by lia. reflexivity. }
+    rewrite HRx. pose proof (q_hp_lt x Hx) as Hb. destruct (q_rank_succ_in_bucket x Hb) as [Hr1 Hr2].
+    rewrite q_split. cbn [bind]. rewrite (q_upper_bound _ Hb). cbn [bind snd fst].
+    set (b := x / 2 ^ w) in *. set (R := vs_rank Vs (x + 1)) in *. pose proof (q_c_le_m b) as Hcm.
+    destruct (N.eqb_spec (c b) 0) as [Hc0|Hc0].
+    { exists (it_empty sv). split; [reflexivity|]. replace (R =? 0) with true by lia. apply q_it_empty. }
+    rewrite usub_ok by lia. cbn [bind]. replace (b + c b - 1) with (b + (c b - 1)) by lia.
+    destruct (run_loop_inv (pred_step md sv (x mod 2 ^ w))
+                (fun s k => exists j, s = (b + j, j) /\ R <= j + 1 /\ j < c b /\ k = j)
+                (fun r => r = if R =? 0 then None else Some (b + (R - 1), R - 1)))
+             with (blocks := sv_fuel sv) (s := (b + (c b - 1), c b - 1)) (k := c b - 1) as [r [Hr Hp]].
+    + intros s k [j [-> [Hlo [Hhi Hk]]]]. unfold b. rewrite (q_pred_step x j Hx Hlo Hhi). fold b R.
+      destruct (N.leb_spec R j) as [Hle|Hgt].
+      * destruct (N.eqb_spec j 0) as [Hj0|Hj0].
+        -- left. exists None. split; [reflexivity|]. replace (R =? 0) with true by lia. reflexivity.
+        -- right. exists (b + (j - 1), j - 1), (j - 1). split; [reflexivity|]. split; [|lia].
+           exists (j - 1). split; [reflexivity|]. split; [lia|]. split; [lia|reflexivity].
+      * left. eexists. split; [reflexivity|]. replace (R =? 0) with false by lia. replace (R - 1) with j by lia. reflexivity.
+    + exists (c b - 1). split; [reflexivity|]. split; [lia|]. split; [lia|reflexivity].
+    + pose proof q_fuel. lia.
+    + rewrite Hr, Hp. cbn [bind]. destruct (N.eqb_spec R 0) as [HR0|HR0].
+      * exists (it_empty sv). split; [reflexivity|apply q_it_empty].
+      * cbn [fst snd].
+        assert (Hop : op (R - 1) <= b + (R - 1)).
+        { unfold one_pos. pose proof (q_c_lt (R - 1) b ltac:(lia)). lia. }
+        assert (Hnx : R < m -> b + (R - 1) < op R).
+        { intros HRm. unfold one_pos. pose proof (q_cprev_ge R b Hr1 HRm). lia. }
+        pose proof q_lenB as HlB.
+        rewrite (q_bwd_loop R (b + (R - 1))) by (try assumption; lia). cbn [bind].
+        eexists. split; [reflexivity|]. apply q_it_at; [lia|]. intros _. split; [|lia].
+        destruct (N.eq_dec (R - 1) 0) as [->|Hne]; [left; reflexivity|right]. apply q_op_mono; lia.
+Qed.
+
 End Queries.
